@@ -6,6 +6,7 @@ CONSTANTS
  Levels <- LevelsDef
  Quiet = TRUE
  ExtSetUp = FALSE
+ WithLeave = FALSE
  KF_OpenAfterClose = FALSE
  KF_GuardOnVisibleOnly = FALSE
 KF_SurvivorsOnly = FALSE
